@@ -188,12 +188,17 @@ Qed.
 
    Full statements aimed at (NOT all proved; what is missing is said at each item and in props/C19.json):
      C19_recover_bytes_refines        recover_bytes = Store/Repair.v recover on the block maps blocks_of derives
-                                      (missing: the lift from one table's scan to the whole fold and through
-                                      commit / open_rw; the equation blocks_of = the blocks of table_wf)
-     C19_recover_keeps_readable       follows from the former + C19_recover_damaged + C01_read_path_refines
+                                      (proved: the fold over the table files, C19_recover_tables_refines_partial at
+                                      the end of this file, under a per-file hypothesis [denotes]; missing: the
+                                      equation blocks_of = the blocks of table_wf that would discharge [denotes],
+                                      sort_fds on the listing order, the journal half through open_rw, the
+                                      abstraction of the returned state)
+     C19_recover_keeps_readable       follows from the former + C19_recover_damaged + C01_read_path_refines (not done)
+     C19_recover_seq_above_all        PROVED in full for the model (third part of this file)
      C19_recover_then_open_idempotent needs C04_open_rw_* applied to the image recover_bytes leaves (not done)
    Proved below: the per-table core of the refinement, the rebuilt table, the bookkeeping of one file, the
-   sequence-number bound. *)
+   sequence-number bound; then (third part) the whole-function sequence-number theorem and the table-loop
+   simulation. *)
 From Coq Require Import List NArith ZArith Bool.
 Import ListNotations.
 From GL Require Import Base.Bytes Base.Cursor Codec.Block Codec.Table Codec.TableCheck Codec.TableProofs Lsm.ReadPath
@@ -294,3 +299,129 @@ Example C19_nonvacuous_bytes :
   scan tblp tbl_crc (fun _ => None) None (fun _ _ _ => true) true bytewise c19_ex_bad = Some [] /\
   cblocks_of tblp tbl_crc (fun _ => None) None (fun _ _ _ => true) true bytewise c19_ex_bad = 1%N.
 Proof. vm_compute. repeat split; reflexivity. Qed.
+
+(* ====================================================================================================
+   WHOLE FUNCTION (Store/RepairSeqProofs.v): statements about recover_bytes itself, for every storage image with
+   one binding per file name. *)
+From GL Require Import Store.RepairSeqProofs.
+From GL Require Codec.SessionRecord Mem.MemDB Codec.Journal.
+
+(* C19_recover_seq_above_all (FULL for the model; supersedes C19_recover_seq_above_all_partial).  Whenever Recover
+   succeeds (read-write or read-only, any options, any journal and manifest bytes):
+   - there is exactly one log line per table file, in the order of the file numbers;
+   - each line's counters, sequence number and verdict are the stated function of the file's ORIGINAL bytes
+     (stat_of: the scan of that file, the good keys, corrupted keys, corrupted blocks, kept / rebuilt / dropped);
+   - the sequence number recoverTable recorded is what the session holds after the commit, and db.seq of the
+     returned DB is at or above it, hence at or above the sequence number of every good key of every table
+     that was registered (kept or rebuilt);
+   under the only hypothesis that no journal batch that the replay applied has "batchSeq + batchLen" >= 2^64
+   (os_kept is the list of applied batches).  That hypothesis is necessary: recoverJournal computes
+   "db.seq = batchSeq + uint64(batchLen)" in uint64 and a journal record whose header says
+   seq = 2^64 - 1, len = 1 with one record in its body is accepted and sets db.seq to 0. *)
+Theorem C19_recover_seq_above_all :
+  forall jcrc jp rp kp bhl mp tp tcrc compress decompress fname ufc verify wo fgen c o strict hts img r,
+  NoDup (map fst (si_files img)) ->
+  recover_bytes jcrc jp rp kp bhl mp tp tcrc compress decompress fname ufc verify wo fgen c o strict hts img = OOk r ->
+  (forall b, In b (os_kept (rr_state r)) -> (fst b + snd b < 2 ^ 64)%N) ->
+  map ts_num (rr_stats r) = table_files (si_files img) /\
+  (rr_maxseq r <= os_seq (rr_state r))%N /\
+  forall s, In s (rr_stats r) ->
+    exists all, scan tp tcrc decompress fname ufc verify c (img_file (si_files img) (ts_num s)) = Some all /\
+      stat_of kp tp tcrc decompress fname ufc verify c strict (ts_num s) (img_file (si_files img) (ts_num s)) all s /\
+      (stat_kept s = true -> (ts_seq s <= rr_maxseq r)%N /\
+         forall kv, In kv (good_of kp all) -> (key_seq kp (fst kv) <= os_seq (rr_state r))%N).
+Proof. exact recover_seq_above_all. Qed.
+Print Assumptions C19_recover_seq_above_all.
+
+(* The two halves it is made of: session.commit hands the record's sequence number to the session whichever way the
+   manifest is written; openDB's db.seq starts there and does not decrease (same hypothesis). *)
+Theorem C19_commit_hands_seq :
+  forall jcrc jp rp c n o rec st st' rec', seqset rp n rec ->
+  commit jcrc jp rp c o rec st = OOk (st', rec') -> s_seq (c_sess st') = n.
+Proof. exact commit_seq. Qed.
+Print Assumptions C19_commit_hands_seq.
+
+Theorem C19_open_rw_seq_monotone :
+  forall jcrc jp rp kp bhl mp tp tcrc compress snappy fgen blockSize ri c o hts cs r,
+  open_rw jcrc jp rp kp bhl mp tp tcrc compress snappy fgen blockSize ri c o hts cs = OOk r ->
+  (forall b, In b (os_kept r) -> (fst b + snd b < 2 ^ 64)%N) -> (s_seq (c_sess cs) <= os_seq r)%N.
+Proof. exact open_rw_seq. Qed.
+Print Assumptions C19_open_rw_seq_monotone.
+
+(* Non-vacuity: the image made of the model-written table of C19_nonvacuous_bytes (number 5) and its damaged copy
+   (number 7) has one binding per name; Recover succeeds on it with the generated constants; no batch was applied
+   (no journal); the log lines say "kept, 3 good keys, sequence number 9" and "dropped, one corrupted block";
+   db.seq = 9. *)
+From GL Require Import Gen.InstMem Gen.InstJournal Gen.InstRecord Gen.Consts.
+Definition c19_ex_img : simage := mkSI None [((SW.FTable, 5%N), c19_ex_data); ((SW.FTable, 7%N), c19_ex_bad)].
+Definition c19_ex_recover : ores rbres :=
+  recover_bytes jcrc jp rp kp ldb_batchHeaderLen mp tblp tbl_crc (fun x => x) (fun _ => None) None (fun _ _ _ => true) true
+    c19_ex_wo None bytewise (mkOO false false true 4194304%Z 67108864%Z false false false [117%N]) false [] c19_ex_img.
+Example C19_nonvacuous_whole :
+  NoDup (map fst (si_files c19_ex_img)) /\
+  exists r, c19_ex_recover = OOk r /\ os_kept (rr_state r) = [] /\
+    map (fun s => (ts_num s, ts_verdict s, ts_good s, ts_cblocks s, ts_seq s)) (rr_stats r) =
+      [(5, TKept, 3, 0, 9); (7, TDropped, 0, 1, 0)]%N /\
+    rr_maxseq r = 9%N /\ os_seq (rr_state r) = 9%N /\ layout_of (rr_state r) = [[5%N]].
+Proof.
+  split.
+  - cbn. repeat constructor; cbn; intuition congruence.
+  - eexists. split; [vm_compute; reflexivity|]. vm_compute. repeat split; reflexivity.
+Qed.
+
+(* C19_recover_tables_refines_partial — the table half of the aimed-at C19_recover_bytes_refines.  The loop of
+   recoverTable on bytes, started on the files the storage lists (one binding per name), simulates the abstract loop
+   of Store/Repair.v (recover_one folded over the abstract files in the same order) whenever every table file
+   DENOTES its abstract file (denotes: the scan of the bytes yields pairs whose internal keys decode — at least 8
+   bytes —, whose entries are the abstract file's readable entries in order, and the number of error callbacks is
+   the number of damaged blocks; C19_scan_skips_damaged_partial establishes the first two for a table with intact
+   footer / metaindex / index block).  Simulation: the same running maximum of the sequence number; the record's
+   added tables are, in order, the abstract model's registered tables (level 0, same number, first / last key of
+   the same good entries); one log line per file with the abstract counters (good keys, corrupted keys, corrupted
+   blocks, sequence number); the same number of dropped files.
+   PARTIAL with respect to C19_recover_bytes_refines: (a) [denotes] is a hypothesis per file — the equation
+   "blocks_of data is the block map of table_wf" that would discharge it from the bytes alone is not proved (shown
+   by computation on the example below); a key shorter than 8 bytes cannot be expressed in the abstract model at
+   all; (b) the abstract files are taken in the storage's listing order, the equation with sort_fds is not proved;
+   (c) the journal half (open_rw's replay on journal bytes = Store/Repair.v replay) is not proved; (d) that a
+   REBUILT file again denotes the good entries needs C19_rebuilt_table_ok's hypotheses and is not composed here. *)
+From GL Require Import Store.RepairRefineProofs.
+Theorem C19_recover_tables_refines_partial :
+  forall rp kp tp tcrc compress decompress fname ufc verify wo c strict fs0 nums (fl : list Repair.tfile) st st' r,
+  NoDup nums ->
+  recover_loop rp kp tp tcrc compress decompress fname ufc verify wo c strict nums st = OOk st' ->
+  (forall n, In n nums -> f_lookup (c_files (rb_c st)) (SW.FTable, n) = f_lookup fs0 (SW.FTable, n)) ->
+  Forall2 (fun n f => Repair.tf_num f = n /\
+                      denotes tp tcrc decompress fname ufc verify c (img_file fs0 n) f) nums fl ->
+  sim st r ->
+  sim st' (fold_left (Repair.recover_one kp strict) fl r) /\
+  exists ss, rb_stats st' = rb_stats st ++ ss /\
+    Forall2 (fun s f => ts_num s = Repair.tf_num f /\ ts_good s = N.of_nat (length (Repair.good kp f)) /\
+                        ts_ckeys s = Repair.ckeys kp f /\ ts_cblocks s = Repair.cblocks f /\
+                        ts_seq s = Repair.tseq (Repair.good kp f)) ss fl /\
+    Repair.r_dropped (fold_left (Repair.recover_one kp strict) fl r) =
+      (Repair.r_dropped r + N.of_nat (length (filter (fun s => negb (stat_kept s)) ss)))%N.
+Proof. exact loop_refines. Qed.
+Print Assumptions C19_recover_tables_refines_partial.
+
+(* Non-vacuity: both files of c19_ex_img denote the block maps the byte model itself derives from them (blocks_of):
+   three readable entries in one undamaged block; one damaged block and nothing readable.  The starting states are
+   related. *)
+Example C19_nonvacuous_refines :
+  denotes tblp tbl_crc (fun _ => None) None (fun _ _ _ => true) true bytewise (img_file (si_files c19_ex_img) 5)
+    (file_of_bytes tblp tbl_crc (fun _ => None) None (fun _ _ _ => true) true bytewise 5 c19_ex_data) /\
+  denotes tblp tbl_crc (fun _ => None) None (fun _ _ _ => true) true bytewise (img_file (si_files c19_ex_img) 7)
+    (file_of_bytes tblp tbl_crc (fun _ => None) None (fun _ _ _ => true) true bytewise 7 c19_ex_bad) /\
+  map (fun b => (Repair.fb_damaged b, length (Repair.fb_entries b)))
+      (blocks_of tblp tbl_crc (fun _ => None) None (fun _ _ _ => true) true bytewise c19_ex_data) = [(false, 3%nat)] /\
+  map (fun b => (Repair.fb_damaged b, length (Repair.fb_entries b)))
+      (blocks_of tblp tbl_crc (fun _ => None) None (fun _ _ _ => true) true bytewise c19_ex_bad) = [(true, 0%nat)] /\
+  sim (mkRB (mkC (si_files c19_ex_img) None sess_new [] []) SR.sr_empty 0 0 []) (Repair.r_init).
+Proof.
+  split; [|split; [|split; [|split]]].
+  - eexists. split; [vm_compute; reflexivity|]. split; [repeat constructor|]. split; vm_compute; reflexivity.
+  - eexists. split; [vm_compute; reflexivity|]. split; [repeat constructor|]. split; vm_compute; reflexivity.
+  - vm_compute. reflexivity.
+  - vm_compute. reflexivity.
+  - split; [reflexivity | constructor].
+Qed.
